@@ -415,3 +415,74 @@ def v_instrumentation(tier_name):
     return {'status': 'confirmed' if ok else 'error', 'cases': cases, 'detail': why or
             'instrumented Worker.workloop (%d statement points) == original on %d concrete scripts' % (H.NPOINTS_STATIC, cases),
             'nontrivial_witness': True, 'messages': [why] if why else []}
+
+
+# ---------------------------------------------------------------------------
+# Worker.after_fork: the pool's termination handlers are installed AFTER the user's initializer ran, so they win
+
+def h_after_fork(code: int) -> bool:
+    """
+    pre: 0 <= code < CODEMAX
+    post: _
+    """
+    import signal as real_signal
+    try:
+        nd = NDCode(code)
+        full = nd.flag()
+        names = sorted(bc.TERMSIGS_FULL if full else bc.TERMSIGS_DEFAULT)
+        nums = [n for n in (bc.signum(s) for s in names) if n]
+        target = nums[nd.draw(0, min(len(nums), 16) - 1)]
+        init_kind = nd.draw(0, 2)          # the initializer installs: nothing / its own handler / SIG_IGN
+    except Prune:
+        return True
+    table = {}
+
+    class FakeSignal:
+        def __getattr__(self, name):
+            return getattr(real_signal, name)
+
+        def signal(self, num, handler):
+            old = table.get(num, real_signal.SIG_DFL)
+            table[num] = handler
+            return old
+
+        def getsignal(self, num):
+            return table.get(num, real_signal.SIG_DFL)
+    fs = FakeSignal()
+
+    def user_handler(signum, frame):
+        pass
+
+    def initializer():
+        if init_kind == 1:
+            fs.signal(target, user_handler)
+        elif init_kind == 2:
+            fs.signal(target, real_signal.SIG_IGN)
+    saved = (bp.signal, bc.signal, bc.maybe_setsignal)
+    bp.signal = fs
+    bc.signal = fs
+
+    def maybe_setsignal(num, handler):
+        fs.signal(num, handler)
+    bc.maybe_setsignal = maybe_setsignal
+    try:
+        ctl = H.Ctl(0, lambda: None)
+        inq = H.Inq([], ctl)
+        outq = H.Outq(ctl)
+        wk = bp.Worker(inq, outq, None, initializer=initializer, sigprotection=full)
+        wk.after_fork()
+    finally:
+        bp.signal, bc.signal, bc.maybe_setsignal = saved
+    for n in nums:
+        h = table.get(n, real_signal.SIG_DFL)
+        if n == target and init_kind == 2:
+            continue                      # an explicitly ignored signal is left ignored (reset_signals respects SIG_IGN)
+        if n == bp.SIG_SOFT_TIMEOUT:
+            if h is not bp.soft_timeout_sighandler:
+                return fail('C06:soft-limit-handler-not-installed')
+            continue
+        if h is not bc._shutdown_cleanup:
+            return fail('C08:termination-handler-not-installed' + (':user-initializer-handler-wins' if h is user_handler else ''))
+    if not (inq._writer.closed and outq._reader.closed):
+        return fail('C08:after-fork-does-not-close-the-parent-ends')
+    return True
